@@ -40,7 +40,11 @@ TInit == /\ l = 1 /\ dead = TRUE /\ segno = 0
          /\ ust = [b \in Blobs |-> "idle"] /\ cst = [b \in Blobs |-> "idle"]
          /\ up = FALSE /\ loaded = FALSE /\ faulty = TRUE /\ crashes = 0
 
-ASSUME \A i \in 10..17 : TLCSet(i, 0)
+ASSUME \A i \in 10..73 : TLCSet(i, 0)
+\* 64 registers chosen round-robin per segment: a live state lags behind the dead front-runner by one BFS level per silent
+\* step, so states of several segments coexist; with 8 registers a long segment (100 silent steps) followed by more than 8
+\* short ones had its register overwritten and its lines went unreported (seen in Trace_SyncValidate, which prints every
+\* line instead).  64 segments are always longer than the lag of one.
 Mark == IF l > TLCGet(10 + segno) THEN TLCSet(10 + segno, l) /\ PrintT(<<"HW", l>>) ELSE TRUE
 IsEv(e) == l <= Len(Trace) /\ Ev.ev = e /\ l' = l + 1
 (* Placement of the silent steps (a partial-order reduction: only the search is pruned, every line is still
@@ -64,7 +68,7 @@ Live == ~dead /\ NoLinger /\ UNCHANGED <<dead, segno>>
 \* Mark must be the LAST conjunct of an action (TLC evaluates conjuncts in order).
 
 TReset == /\ IsEv("reset") /\ Fresh /\ dead' = FALSE
-          /\ segno' = (segno + 1) % 8 /\ TLCSet(10 + ((segno + 1) % 8), 0)
+          /\ segno' = (segno + 1) % 64 /\ TLCSet(10 + ((segno + 1) % 64), 0)
 
 \* the source held the blob before the handler was attached: no hook ran, nothing is queued for it
 TPre    == IsEv("pre") /\ Live /\ Ev.b \in Blobs /\ ~up /\ src' = src \cup {Ev.b}
